@@ -21,3 +21,7 @@ Definition in_domain_B (B ec er : Z) (children : list (child_kind * child)) : Pr
    probed areas stay within 10B of the last line:  2 B n + 16 B <= i16::MAX  (n = number of children) *)
 Definition bound_ok (B : Z) (n : nat) : Prop :=
   2 <= B /\ 2 * B * Z.of_nat n + 16 * B <= 32767.
+
+(* the side condition of the clause theorems (every child placed once, area in range, explicit lines honoured, auto items do
+   not overlap -- all GIVEN that the run returned Ok): only the estimate has to stay in range, for ANY number of children *)
+Definition clause_bound_ok (B : Z) : Prop := 2 <= B /\ 16 * B <= 32767.
